@@ -386,8 +386,22 @@ func c14Check(c c14Case, res *engine.JobResult) {
 		res.Violate(c14Cause(c.Feats), fmt.Sprintf("%s: one format is refused or crashes: GenBank run: %s %s; GFF run: %s %s", desc, og.String(), og.Detail, of.String(), of.Detail), c)
 		return
 	}
+	// the same rows (one per query record, by name) in both runs
+	if len(mg) != len(mf) {
+		res.Violate("gb-vs-gff:rows", fmt.Sprintf("%s: GenBank run writes %d rows, GFF3 run %d: %q vs %q", desc, len(mg), len(mf), og.Out, of.Out), c)
+		return
+	}
 	for i, q := range c.QRows {
 		n := fmt.Sprintf("q%d", i)
+		if c.AnnoRef && i == 1 && c.Via != "samvariants" {
+			n = "ref"
+		}
+		_, ing := mg[n]
+		_, inf := mf[n]
+		if ing != inf {
+			res.Violate("gb-vs-gff:rows", fmt.Sprintf("%s: row %q is present in one output only (GenBank %v, GFF3 %v)", desc, n, ing, inf), c)
+			return
+		}
 		if multisetKey(mg[n]) != multisetKey(mf[n]) {
 			cc := c
 			cc.QRows = []string{q}
